@@ -565,6 +565,9 @@ def check_line(ev):
         return fn(ev)
     except NotFinite:
         return {"bad": ["C01.nonfinite_output"]}
+    except (IndexError, KeyError, TypeError, ValueError) as ex:
+        # storage too damaged to be interpreted numerically: the structural clauses (TLC) report it
+        return {"bad": [], "unreadable": repr(ex)}
 
 
 def main():
